@@ -463,6 +463,7 @@ func initMemdbModels() {
 	extModels[txnP+"DeleteAll"] = func(e *Exec, s *State, args []Val, cc *ssa.CallCommon, setRes func(*State, Val), rest func(*State)) {
 		t := e.memTableOf(cc.Args[1])
 		index := constStr(e, cc.Args[2])
+		e.memWf(s, "txn", t)
 		ias := e.memArgs(s, args[3], e.indexSorts(t, index), varargTypes(cc.Args[3]))
 		rt := cc.Signature().Results()
 		n := e.symbolic(s, rt.At(0).Type(), "ndeleted")
